@@ -102,13 +102,50 @@ def parse_rust_bytes(dbg):
 def run(ctx):
     rep, f = ctx.rep, ctx.facts
     rep.trust('serde derive emits symmetric visitor code for the keys it is given; serde_json prints finite f64 with ryu '
-              '(shortest round-trip) and parses it back to the same bits; nalgebra/std types\' own serde impls')
+              '(shortest round-trip); serde_json\'s reader is correctly rounded exactly when it is compiled with its '
+              'float_roundtrip feature (its documentation; the default reader may be one ulp off); nalgebra/std types\' own serde impls')
     rep.assume('finite parameter values (JSON has no NaN/inf); file-system effects are not decided')
     _serde(ctx)
+    _json_reader(ctx)
     _svg_matrix(ctx)
     _svg_placements(ctx)
     rep.note('R2: State::score impls read only fields of self and no global/nondeterministic source (C09.R2/R5), so equal '
              'fields give equal score and placements after a reload; "what is written is that object" is C10.R3')
+
+
+def _json_reader(ctx):
+    """R5: every float must survive.  The writer is exact (shortest round-trip digits); the reader returns the same bits only
+    if it rounds correctly, which for serde_json is a build-configuration fact: the resolved feature set of the serde_json
+    node in the crate's build graph."""
+    rep, f = ctx.rep, ctx.facts
+    if not rep.check(f.build is not None, 'R5', 'anchor:build-graph', 'Cargo.toml', 'cargo metadata resolved',
+                     'no resolved build graph in the facts', 'facts-missing'):
+        return
+    nodes = [n for n in f.build['nodes'] if n['name'] == 'serde_json']
+    users = [n['name'] for n in f.build['nodes'] if 'serde_json' in n['deps']]
+    if not rep.check(len(nodes) >= 1 and f.build.get('root') in users, 'R5', 'anchor:serde_json-in-build-graph', 'Cargo.toml',
+                     'serde_json %s is a dependency of %s' % ([n['version'] for n in nodes], f.build.get('root')),
+                     'serde_json is not a direct dependency of the crate: the JSON codec is something else', 'anchor-lost'):
+        return
+    for n in nodes:
+        rep.check('float_roundtrip' in n['features'], 'R5', 'json-reader-is-correctly-rounded', 'Cargo.toml [dependencies] serde_json',
+                  'serde_json %s is built with features %s' % (n['version'], n['features']),
+                  'serde_json %s is built with features %s: without float_roundtrip its number reader is not correctly rounded, so '
+                  'reading back the shortest digits the writer printed can return a neighbouring f64 (e.g. 1.3971374395758567 reads '
+                  'as 1.397137439575857): the reloaded state has different parameters, score and re-serialisation'
+                  % (n['version'], n['features']))
+    # the floats are written by serde_json's own f64 writer: no f64 of a state type is formatted to a string by hand
+    bad = []
+    for adt in STATE_TYPES:
+        for b in _impl(f, adt, 'serde::ser::Serialize'):
+            for bi, t in b.calls():
+                nm = callee_name(t) or ''
+                if 'serialize_str' in nm or 'collect_str' in nm or 'fmt::format' in nm or 'ToString' in nm:
+                    # derived code passes field/variant NAMES through serialize_str-like calls only for unit variants
+                    if not b.derived:
+                        bad.append(where(b, bi))
+    rep.check(not bad, 'R5', 'floats-written-by-the-json-writer', 'hand-written Serialize impls of state types',
+              'no hand-written Serialize impl formats a value to a string', 'a hand-written Serialize impl writes a string: %s' % bad)
 
 
 def _impl(f, adt, trait_canon):
